@@ -6,8 +6,9 @@
     the drift moves content along q only, so it keeps every energy column's charge. *)
 From Coq Require Import List ZArith QArith Qcanon Lia Bool Ring Field.
 From Inovesa Require Import Base.FieldKit Base.Sums Base.Float32 Gen.Gen_Coeffs Model.Kick
-  Model.StepKinds Gen.Gen_StepOrder Model.Haiss Proofs.WeightsP Proofs.KickP Proofs.KickGridP
-  Proofs.ForceP.
+  Model.StepKinds Gen.Gen_StepOrder Model.RunKinds Gen.Gen_WakeUpdate Gen.Gen_Identity Gen.Gen_KickIndex
+  Model.Copy Model.WakeUpdate Model.Haiss Proofs.WeightsP Proofs.KickP Proofs.KickGridP Proofs.CopyP
+  Proofs.HaissGenP Proofs.ForceP.
 Import ListNotations.
 Local Open Scope Z_scope.
 
@@ -16,18 +17,6 @@ Definition E1 (n : Z) (D : Z -> Qc) (b : Z) : Qc :=
   sumQ 0 (Z.to_nat n) (fun x => M1 n (rowD n D b x)).
 Definition Q0 (n : Z) (D : Z -> Qc) (b : Z) : Qc :=
   sumQ 0 (Z.to_nat n) (fun x => M0 n (rowD n D b x)).
-
-Lemma M0_ext n (r r' : Z -> Qc) : (forall y, r y = r' y) -> M0 n r = M0 n r'.
-Proof. intros H. apply (sumZ_ext QcF). intros y _. apply H. Qed.
-Lemma M1_ext n (r r' : Z -> Qc) : (forall y, r y = r' y) -> M1 n r = M1 n r'.
-Proof. intros H. apply (sumZ_ext QcF). intros y _. rewrite H. reflexivity. Qed.
-
-Lemma didx_in_range n nb b x y :
-  0 < n -> 0 <= b < nb -> 0 <= x < n -> 0 <= y < n -> in_range (nb * n * n) (didx n b x y) = true.
-Proof. intros Hn Hb Hx Hy. apply in_range_true. unfold didx. nia. Qed.
-
-Lemma krow_out n it o r y : y < 0 \/ n <= y -> krow n it o r y = 0%Qc.
-Proof. intros H. unfold krow. change ((0 <=? y) && (y <? n))%bool with (in_range n y). rewrite in_range_false by exact H. reflexivity. Qed.
 
 Lemma rowD_gkick_y n nb it (offs D : Z -> Qc) b x y :
   valid_it it -> 0 < n -> 0 < nb -> 0 <= b < nb -> 0 <= x < n ->
@@ -74,17 +63,19 @@ Proof.
   unfold rowD, colD. rewrite !in_range_true by lia. reflexivity.
 Qed.
 
+(** The three maps before the Fokker-Planck map, for any grids [D] -> [D2] (after both energy
+    kicks) -> [D3] (after the drift) whose rows / columns of bunch [b] are the [krow]s of the
+    per-(bunch,row) offsets [wo], [rfo] and of the per-column offsets [dro]. *)
 Section Step.
-  Variables (n nb it : Z) (wo rfo dro D : Z -> Qc) (b : Z).
+  Variables (n it : Z) (wo rfo dro D D2 D3 : Z -> Qc) (b : Z).
   Hypothesis Hv : valid_it it.
   Hypothesis H2 : 2 <= it.
   Hypothesis Hn : 0 < n < 2 ^ 30.
-  Hypothesis Hnb : 0 < nb.
-  Hypothesis Hb : 0 <= b < nb.
 
-  Let D1 := gkick_y n nb it wo D.
-  Let D2 := gkick_y n nb it rfo D1.
-  Let D3 := gkick_x n nb it dro D2.
+  Hypothesis Hrow2 : forall x y, 0 <= x < n ->
+      rowD n D2 b x y = krow n it (rfo (b * n + x)) (krow n it (wo (b * n + x)) (rowD n D b x)) y.
+  Hypothesis Hcol3 : forall y x, 0 <= y < n ->
+      colD n D3 b y x = krow n it (dro y) (colD n D2 b y) x.
 
   (** every row keeps both energy-kick stencils and its support inside the grid *)
   Hypothesis Hrows : forall x, 0 <= x < n -> exists a bb,
@@ -102,11 +93,7 @@ Section Step.
     (M1 n (rowD n D b x) - (eff_off n (wo (b * n + x)) + eff_off n (rfo (b * n + x))) * M0 n (rowD n D b x))%Qc.
   Proof.
     intros Hx. destruct (Hrows x Hx) as (a & bb & Hs & F1 & F2).
-    assert (E : forall y, rowD n D2 b x y =
-                          krow n it (rfo (b * n + x)) (krow n it (wo (b * n + x)) (rowD n D b x)) y).
-    { intros y. unfold D2. rewrite rowD_gkick_y by (assumption || lia).
-      apply krow_ext. intros u. unfold D1. apply rowD_gkick_y; assumption || lia. }
-    rewrite (M0_ext n _ _ E), (M1_ext n _ _ E).
+    rewrite (M0_ext n _ _ (fun y => Hrow2 x y Hx)), (M1_ext n _ _ (fun y => Hrow2 x y Hx)).
     exact (two_kicks n it _ _ _ a bb Hv H2 Hn Hs F1 F2).
   Qed.
 
@@ -116,10 +103,10 @@ Section Step.
     intros Hy. destruct (Hcols y Hy) as (c & d & Hs & F).
     rewrite (M0_ext n _ (krow n it (dro y) (colD n D2 b y))).
     - exact (krow_M0 n it (dro y) _ c d Hv Hn Hs F).
-    - intros x. unfold D3. apply colD_gkick_x; assumption || lia.
+    - intros x. apply Hcol3, Hy.
   Qed.
 
-  Theorem kicks_then_drift :
+  Theorem kicks_then_drift_rows :
     E1 n D3 b =
     (E1 n D b - sumQ 0 (Z.to_nat n)
        (fun x => ((eff_off n (wo (b * n + x)) + eff_off n (rfo (b * n + x))) * M0 n (rowD n D b x))%Qc))%Qc
@@ -141,6 +128,57 @@ Section Step.
       apply (sumZ_ext QcF). intros x Hx. destruct (rows_after_kicks x ltac:(lia)) as [E _]. exact E.
   Qed.
 End Step.
+
+(** (a) offsets given as such, closed-form tables of Model/Kick.v *)
+Theorem kicks_then_drift n nb it (wo rfo dro D : Z -> Qc) b :
+  valid_it it -> 2 <= it -> 0 < n < 2 ^ 30 -> 0 < nb -> 0 <= b < nb ->
+  let D1 := gkick_y n nb it wo D in
+  let D2 := gkick_y n nb it rfo D1 in
+  let D3 := gkick_x n nb it dro D2 in
+  (forall x, 0 <= x < n -> exists a bb,
+      suppQ (rowD n D b x) a bb /\
+      row_fits n it (wo (b * n + x)) a bb /\
+      row_fits n it (rfo (b * n + x)) (a - shift_hi n it (wo (b * n + x))) (bb - shift_lo n it (wo (b * n + x)))) ->
+  (forall y, 0 <= y < n -> exists c d,
+      suppQ (colD n D2 b y) c d /\ row_fits n it (dro y) c d) ->
+  E1 n D3 b =
+    (E1 n D b - sumQ 0 (Z.to_nat n)
+       (fun x => ((eff_off n (wo (b * n + x)%Z) + eff_off n (rfo (b * n + x)%Z)) * M0 n (rowD n D b x))%Qc))%Qc
+  /\ Q0 n D3 b = Q0 n D b.
+Proof.
+  intros Hv H2 Hn Hnb Hb D1 D2 D3 Hrows Hcols.
+  apply (kicks_then_drift_rows n it wo rfo dro D D2 D3 b Hv H2 Hn); try assumption.
+  - intros x y Hx. unfold D2. rewrite rowD_gkick_y by (assumption || lia).
+    apply krow_ext. intros u. unfold D1. apply rowD_gkick_y; assumption || lia.
+  - intros y x Hy. unfold D3. apply colD_gkick_x; assumption || lia.
+Qed.
+
+(** (b) the maps as the code applies them: wake kick with the table update() built from the wake
+    potentials [wp], RF kick with the table of the RF offsets of every bunch's block, both through the
+    generated y branch; for EVERY bunch [b] the offsets are those of its own block *)
+Theorem kicks_then_drift_code n nb it (wp : Z -> Qc) (t xc : Qc) (dro D : Z -> Qc) b :
+  valid_it it -> 2 <= it -> 0 < n < 2 ^ 30 -> 0 <= b < nb ->
+  let rfo := rf_offsets nb n t xc in
+  let D1 := gkick_wake n nb it wp D in
+  let D2 := gkick_rf n nb it t xc D1 in
+  let D3 := gkick_x n nb it dro D2 in
+  (forall x, 0 <= x < n -> exists a bb,
+      suppQ (rowD n D b x) a bb /\
+      row_fits n it (wp (b * n + x)) a bb /\
+      row_fits n it (rfo (b * n + x)) (a - shift_hi n it (wp (b * n + x))) (bb - shift_lo n it (wp (b * n + x)))) ->
+  (forall y, 0 <= y < n -> exists c d,
+      suppQ (colD n D2 b y) c d /\ row_fits n it (dro y) c d) ->
+  E1 n D3 b =
+    (E1 n D b - sumQ 0 (Z.to_nat n)
+       (fun x => ((eff_off n (wp (b * n + x)%Z) + eff_off n (rfo (b * n + x)%Z)) * M0 n (rowD n D b x))%Qc))%Qc
+  /\ Q0 n D3 b = Q0 n D b.
+Proof.
+  intros Hv H2 Hn Hb rfo D1 D2 D3 Hrows Hcols.
+  apply (kicks_then_drift_rows n it wp rfo dro D D2 D3 b Hv H2 Hn); try assumption.
+  - intros x y Hx. unfold D2. rewrite gkick_rf_rows by (assumption || lia).
+    apply krow_ext. intros u. unfold D1. apply gkick_wake_rows; assumption || lia.
+  - intros y x Hy. unfold D3. apply colD_gkick_x; assumption || lia.
+Qed.
 
 (** ** the list front-end (what the extracted driver runs) computes these grid functions *)
 
@@ -190,9 +228,9 @@ Proof. intros H. apply (sumZ_ext QcF). intros x _. apply M1_ext. intros y. apply
 Lemma Q0_ext n (D D' : Z -> Qc) b : (forall j, D j = D' j) -> Q0 n D b = Q0 n D' b.
 Proof. intros H. apply (sumZ_ext QcF). intros x _. apply M0_ext. intros y. apply rowD_ext, H. Qed.
 
-(** One step of the executable model in the generated order, whatever the Fokker-Planck map
-    [fp] computes: [g3] is the grid handed to it. *)
-Theorem step_model_energy n nb it (wo rfo dro : list Qc) (fp : list Qc -> list Qc)
+(** One step of the executable model (a) (offsets given as such) in the generated order, whatever
+    the Fokker-Planck map [fp] computes: [g3] is the grid handed to it. *)
+Theorem step_model_energy_offsets n nb it (wo rfo dro : list Qc) (fp : list Qc -> list Qc)
         (data g1 g2 g3 g4 : list Qc) b :
   valid_it it -> 2 <= it -> 0 < n < 2 ^ 30 -> 0 < nb -> 0 <= b < nb ->
   run_maps n nb it wo rfo dro fp step_order data = [g1; g2; g3; g4] ->
@@ -238,7 +276,75 @@ Proof.
   - subst. reflexivity.
 Qed.
 
-(** ** the hypotheses of [step_model_energy] are satisfiable: an 8x8 grid, two-point scheme *)
+(** ** the step as the code runs it (list front-end (b)) *)
+
+Lemma getQ_ykick_list n nb it H data i :
+  getQ (ykick_list n nb it H data) i = gykick n nb it H (getQ data) i.
+Proof.
+  unfold ykick_list. rewrite getQ_map_zrange. unfold gykick.
+  destruct (in_range (nb * n * n) i); reflexivity.
+Qed.
+
+Lemma gykick_ext n nb it H (D D' : Z -> Qc) i :
+  (forall j, D j = D' j) -> gykick n nb it H D i = gykick n nb it H D' i.
+Proof.
+  intros E. unfold gykick. destruct (in_range _ i); [|reflexivity].
+  unfold ykick_cell. cbv zeta. apply (f_equal qsum). apply map_ext. intros j.
+  rewrite E. reflexivity.
+Qed.
+
+(** One step of the executable model in the generated order as the code runs it - the wake kick's
+    table from WakePotentialMap::update on the wake potentials [wp], the RF kick's table from the RF
+    offsets of every bunch's block, both applied through the generated y branch - whatever the
+    Fokker-Planck map [fp] computes; for EVERY bunch [b], with its own wake potential entries
+    wp(b*n+x): [g3] is the grid handed to the Fokker-Planck map. *)
+Theorem step_model_energy n nb it (wp : list Qc) (t xc : Qc) (dro : list Qc) (fp : list Qc -> list Qc)
+        (data g1 g2 g3 g4 : list Qc) b :
+  valid_it it -> 2 <= it -> 0 < n < 2 ^ 30 -> 0 <= b < nb ->
+  run_maps_code n nb it wp t xc dro fp step_order data = [g1; g2; g3; g4] ->
+  (forall x, 0 <= x < n -> exists a bb,
+      suppQ (rowD n (getQ data) b x) a bb /\
+      row_fits n it (getQ wp (b * n + x)) a bb /\
+      row_fits n it (rf_offsets nb n t xc (b * n + x)) (a - shift_hi n it (getQ wp (b * n + x)))
+                                                       (bb - shift_lo n it (getQ wp (b * n + x)))) ->
+  (forall y, 0 <= y < n -> exists c d,
+      suppQ (colD n (getQ g2) b y) c d /\ row_fits n it (getQ dro y) c d) ->
+  E1 n (getQ g3) b =
+    (E1 n (getQ data) b - sumQ 0 (Z.to_nat n)
+       (fun x => ((eff_off n (getQ wp (b * n + x)) + eff_off n (rf_offsets nb n t xc (b * n + x)))
+                  * M0 n (rowD n (getQ data) b x))%Qc))%Qc
+  /\ Q0 n (getQ g3) b = Q0 n (getQ data) b
+  /\ g4 = fp g3.
+Proof.
+  intros Hv H2 Hn Hb Hrun Hrows Hcols.
+  change step_order with [MWake; MRF; MDrift; MFP] in Hrun.
+  cbn [run_maps_code apply_map_code] in Hrun. cbv zeta in Hrun.
+  injection Hrun as E1' E2' E3' E4'.
+  set (D := getQ data) in *.
+  set (F1 := gkick_wake n nb it (getQ wp) D).
+  set (F2 := gkick_rf n nb it t xc F1).
+  set (F3 := gkick_x n nb it (getQ dro) F2).
+  assert (G1 : forall i, getQ g1 i = F1 i).
+  { intros i. rewrite <- E1'. apply getQ_ykick_list. }
+  assert (G2 : forall i, getQ g2 i = F2 i).
+  { intros i. rewrite <- E2'. rewrite getQ_ykick_list. unfold F2, gkick_rf. apply gykick_ext.
+    intros j. rewrite E1'. apply G1. }
+  assert (G3 : forall i, getQ g3 i = F3 i).
+  { intros i. rewrite <- E3'. rewrite getQ_kick_x_list. unfold F3. apply gkick_x_ext.
+    intros j. rewrite E2'. apply G2. }
+  assert (Hcols' : forall y, 0 <= y < n -> exists c d,
+             suppQ (colD n F2 b y) c d /\ row_fits n it (getQ dro y) c d).
+  { intros y Hy. destruct (Hcols y Hy) as (c & d & Hs & Hf). exists c, d. split; [|exact Hf].
+    intros x Hx. rewrite <- (colD_ext n _ _ b y x G2). apply Hs, Hx. }
+  destruct (kicks_then_drift_code n nb it (getQ wp) t xc (getQ dro) D b Hv H2 Hn Hb Hrows Hcols')
+    as [K1 K2].
+  split; [|split].
+  - rewrite (E1_ext n _ _ b G3). exact K1.
+  - rewrite (Q0_ext n _ _ b G3). exact K2.
+  - subst. reflexivity.
+Qed.
+
+(** ** the hypotheses of [step_model_energy_offsets] are satisfiable: an 8x8 grid, two-point scheme *)
 Definition exs_data : list Qc :=
   map (fun i => if (i =? 3 * 8 + 4) then Qcz 2 else if (i =? 3 * 8 + 5) then Qcz 3 else
                 if (i =? 4 * 8 + 4) then Qcz 5 else if (i =? 4 * 8 + 5) then Qcz 1 else 0%Qc) (zrange 64).
@@ -275,4 +381,41 @@ Proof.
     + intros i Hi. unfold colD. destruct (in_range 8 i) eqn:E; [|reflexivity].
       apply in_range_inv in E. cases8 y; cases8 i; try lia; vm_compute; reflexivity.
     + cases8 y; vm_compute; repeat split; try discriminate; reflexivity.
+Qed.
+
+
+(** ** the hypotheses of [step_model_energy] are satisfiable for a bunch other than the first: two
+    bunches on 8x8 grids, two-point scheme, unequal wakes (1/4 cell in bunch 0, 1/2 cell in bunch 1),
+    t = 1/16, xc = 7/2; data in rows 3,4 of both bunches; the statement is instantiated for bunch 1 *)
+Definition ex2s_data : list Qc :=
+  map (fun i => if (i =? 64 + 3 * 8 + 4) then Qcz 2 else if (i =? 64 + 3 * 8 + 5) then Qcz 3 else
+                if (i =? 64 + 4 * 8 + 4) then Qcz 5 else if (i =? 64 + 4 * 8 + 5) then Qcz 1 else
+                if (i =? 3 * 8 + 4) then Qcz 1 else if (i =? 4 * 8 + 5) then Qcz 7 else 0%Qc) (zrange 128).
+Definition ex2s_wp : list Qc := map (fun i => if i <? 8 then Q2Qc (1 # 4) else Q2Qc (1 # 2)) (zrange 16).
+Definition ex2s_t : Qc := Q2Qc (1 # 16).
+Definition ex2s_xc : Qc := Q2Qc (7 # 2).
+
+Lemma step_example_two_bunches :
+  exists g1 g2 g3 g4,
+    run_maps_code 8 2 2 ex2s_wp ex2s_t ex2s_xc exs_dro (fun d => d) step_order ex2s_data = [g1; g2; g3; g4] /\
+    (forall x, 0 <= x < 8 -> exists a bb,
+        suppQ (rowD 8 (getQ ex2s_data) 1 x) a bb /\
+        row_fits 8 2 (getQ ex2s_wp (1 * 8 + x)) a bb /\
+        row_fits 8 2 (rf_offsets 2 8 ex2s_t ex2s_xc (1 * 8 + x)) (a - shift_hi 8 2 (getQ ex2s_wp (1 * 8 + x)))
+                                                                 (bb - shift_lo 8 2 (getQ ex2s_wp (1 * 8 + x)))) /\
+    (forall y, 0 <= y < 8 -> exists c d,
+        suppQ (colD 8 (getQ g2) 1 y) c d /\ row_fits 8 2 (getQ exs_dro y) c d) /\
+    getQ ex2s_wp (1 * 8 + 3) <> getQ ex2s_wp (0 * 8 + 3).
+Proof.
+  do 4 eexists. split; [vm_compute; reflexivity|]. split; [|split].
+  - intros x Hx. exists 4, 6. split; [|split].
+    + intros i Hi. unfold rowD. destruct (in_range 8 i) eqn:E; [|reflexivity].
+      apply in_range_inv in E. cases8 x; cases8 i; try lia; vm_compute; reflexivity.
+    + cases8 x; vm_compute; repeat split; try discriminate; reflexivity.
+    + cases8 x; vm_compute; repeat split; try discriminate; reflexivity.
+  - intros y Hy. exists 3, 5. split.
+    + intros i Hi. unfold colD. destruct (in_range 8 i) eqn:E; [|reflexivity].
+      apply in_range_inv in E. cases8 y; cases8 i; try lia; vm_compute; reflexivity.
+    + cases8 y; vm_compute; repeat split; try discriminate; reflexivity.
+  - vm_compute. discriminate.
 Qed.
